@@ -58,20 +58,20 @@ inline void parse(const Edge& e, Parsed& P) {
 	P.reqBeforeKnown = !(VX_PLANS && (e.op.k == OP_UPDATE || e.op.k == OP_REACT) && !loggerOn);
 	Round* cur = nullptr; int curGuardEv = -1; int curGuardKind = 0;   // 1 root eg, 2 xg, 3 eg
 	bool inRounds = false;
+	bool groupOpen = false; uint8_t groupSid = 0, groupMeth = 0;
 	for (int i = 0; i < e.nev; ++i) {
 		const Ev& v = e.tr[i];
 		if (v.kind == EV_MARK) break;   // companion sections are handled by their own monitors
 		if (v.kind == EV_CB) {
 			++P.ncb;
-			if (v.inj) continue;
-			if (is_phase(v.meth)) { if (P.nphase < 24) P.phase_ev[P.nphase++] = i; curGuardEv = -1; continue; }
-			if (v.meth == M_QUERY) { if (P.nquery < 8) P.query_ev[P.nquery++] = i; continue; }
-			if (v.meth == M_PLAN_OK || v.meth == M_PLAN_FAIL) { if (P.nout < 4) P.out_ev[P.nout++] = i; curGuardEv = -1; continue; }
-			if (is_life(v.meth)) { if (P.nlife < 24) P.life_ev[P.nlife++] = i; curGuardEv = -1; continue; }
 			if (is_guard(v.meth)) {
+				// a delivery group = the injections' guards and the state's own guard of one (state, method); it ends with the own callback
 				if (P.firstGuard < 0) P.firstGuard = i;
 				P.lastGuard = i;
 				if (!inRounds) { inRounds = true; P.reqBefore = req; P.reqBeforeTagKnown = reqTagKnown; }
+				const bool sameGroup = groupOpen && v.sid == groupSid && v.meth == groupMeth;
+				if (sameGroup) { if (!v.inj) groupOpen = false; curGuardEv = i; continue; }
+				groupOpen = v.inj != 0; groupSid = v.sid; groupMeth = v.meth;
 				bool startsRound;
 				if (P.activation) startsRound = VX_HEAD ? (v.sid == ROOT && v.meth == M_EG) : (v.meth == M_EG);
 				else startsRound = (v.meth == M_XG);
@@ -86,6 +86,11 @@ inline void parse(const Edge& e, Parsed& P) {
 				curGuardEv = i;
 				continue;
 			}
+			if (v.inj) continue;
+			if (is_phase(v.meth)) { if (P.nphase < 24) P.phase_ev[P.nphase++] = i; curGuardEv = -1; continue; }
+			if (v.meth == M_QUERY) { if (P.nquery < 8) P.query_ev[P.nquery++] = i; continue; }
+			if (v.meth == M_PLAN_OK || v.meth == M_PLAN_FAIL) { if (P.nout < 4) P.out_ev[P.nout++] = i; curGuardEv = -1; continue; }
+			if (is_life(v.meth)) { if (P.nlife < 24) P.life_ev[P.nlife++] = i; curGuardEv = -1; continue; }
 			continue;
 		}
 		// actions
@@ -415,14 +420,16 @@ inline void m06(const Edge& e, const Parsed& P) {
 		if (!(v.flags & OF_CTX)) flag(C06, "control-context", e, "ev %d: control.context() is not the machine's context object", i);
 		if (v.ctl_mask != v.m_mask) flag(C06, "control-isActive", e, "ev %d (%s on %d): control.isActive mask %x, machine reports %x", i, METH_NAME[v.meth], v.sid, v.ctl_mask, v.m_mask);
 		if (v.m_active != NONE8 && v.m_mask != (1u << v.m_active)) flag(C06, "machine-isActive", e, "ev %d: activeStateId()=%d, isActive mask %x", i, v.m_active, v.m_mask);
-		if (v.inj) continue;
 		if (is_guard(v.meth) && !P.structErr) {
-			// locate the round of this guard
-			for (int r = 0; r < P.nr; ++r) if (P.r[r].reg_ev == i || P.r[r].xg_ev == i || P.r[r].eg_ev == i) {
+			// the round this guard delivery (own or injected) belongs to: the last round that started at or before it
+			int r = -1;
+			for (int q = 0; q < P.nr; ++q) { int st = P.r[q].reg_ev >= 0 ? P.r[q].reg_ev : (P.r[q].xg_ev >= 0 ? P.r[q].xg_ev : P.r[q].eg_ev); if (st >= 0 && st <= i) r = q; }
+			if (r >= 0) {
 				if (r != round) { round = r; // a new round took the outstanding request as its subject
 					if (r == first_req_round(P) && !P.reqBeforeKnown) reqKnown = false;
 					if (r >= first_req_round(P) || !P.activation) { if (reqKnown && !same_req(v.pend, req, reqTagKnown) && !(P.activation && r == 0)) flag(C06, "pending-transition", e, "ev %d: pendingTransition() %d>%d, outstanding request was %d>%d", i, v.pend.o, v.pend.d, req.o, req.d); }
 					req = TX_NONE; reqKnown = true; reqTagKnown = true; }
+				if (v.pend != P.r[r].subj) flag(C06, "pending-transition", e, "ev %d: pendingTransition() differs from what the first guard of the round saw", i);
 				TxS acc = accepted_before(P, r);
 				if (v.cur != acc) flag(C06, "current-transition", e, "ev %d: currentTransition() %d>%d, accepted so far %d>%d", i, v.cur.o, v.cur.d, acc.o, acc.d);
 			}
@@ -473,6 +480,12 @@ inline void m11(const Edge& e, const Parsed& P) {
 	if (P.processing || P.activation) {
 		if (P.structErr) return;
 		TxS W = TX_NONE; bool hasW = winner(P, W);
+		// a request made in the last round that was neither vetoed nor evaluated nor left over replaced the accepted one without the
+		// history noticing (the only drop the library is known to make is the origin-less, payload-less duplicate, DESIGN.md O12)
+		if (P.nr > 0 && P.r[P.nr - 1].hasReq && (P.nr - first_req_round(P)) < L && tx_empty(e.post.req)) {
+			const TxS acc = accepted_before(P, P.nr);
+			if (!is_dropped_duplicate(acc, P.r[P.nr - 1].lastReq)) flag(C11, "history-misses-surviving-request", e, "request %d>%d/p%d made in the last guard round was not vetoed, yet previousTransition() = %d>%d/p%d", P.r[P.nr - 1].lastReq.o, P.r[P.nr - 1].lastReq.d, P.r[P.nr - 1].lastReq.tag, e.post.prev.o, e.post.prev.d, e.post.prev.tag);
+		}
 		if (!hasW) { if (!tx_empty(e.post.prev)) flag(C11, "history-not-empty", e, "previousTransition() = %d>%d although no transition was applied", e.post.prev.o, e.post.prev.d); }
 		else {
 			if (e.post.prev.d != e.post.active) flag(C11, "history-destination", e, "previousTransition().destination=%d, active=%d", e.post.prev.d, e.post.active);
